@@ -207,6 +207,7 @@ fn font_data(ex: &Ex) {
                 ensure!(cell_inside(g), "font_data:cell_outside_image", "{}: glyph {} of {:?} does not lie inside the {}x{} image", name, g, c, isz.width, isz.height);
             }
             // unmapped characters get the replacement glyph, whose cell is inside the image
+            let mut replacement: Option<usize> = None;
             for &c in UNMAPPED.iter().chain(['\u{3042}', '\u{10FFFF}'].iter()) {
                 if chars.contains(&c) {
                     continue;
@@ -214,7 +215,9 @@ fn font_data(ex: &Ex) {
                 let g = font.glyph_mapping.index(c);
                 ensure!(!mapping.contains(c), "font_data:contains_unmapped", "{}: contains({:?}) is true", name, c);
                 ensure!(cell_inside(g), "font_data:replacement_outside_image", "{}: replacement glyph {} does not lie inside the image", name, g);
-                ensure!(g == mapping.index('?') || !chars.contains(&'?'), "font_data:replacement_not_question_mark", "{}: unmapped {:?} maps to glyph {}, '?' is glyph {}", name, c, g, mapping.index('?'));
+                // every unmapped character designates the same (replacement) glyph
+                let first = *replacement.get_or_insert(g);
+                ensure!(g == first, "font_data:replacement_differs", "{}: unmapped {:?} maps to glyph {}, another unmapped character to {}", name, c, g, first);
             }
             // decorations lie at sane offsets
             ensure!(font.baseline < ch, "font_data:baseline", "{}: baseline {} >= character height {}", name, font.baseline, ch);
